@@ -279,6 +279,8 @@ def run(ctx):
         except Exception as e:  # noqa
             tpl_err = f"template export failed: {type(e).__name__}: {e}"[:400]
     harness_ok = b["ok"] or "Harness" not in str(b.get("file", "")) and "Dec.v" not in str(b.get("file", ""))
+    import time
+    ctx.log(f"coq build + decoder template tie done ({time.time() - ctx.t0:.1f}s since start)")
     pairs = make_pairs(ctx, 20 if quick else 90, 3 if quick else 4)
     types = [t for t, _ in pairs]
     total = part_needs_clamp(ctx, types + [t for t in directed_types() if t not in types])
@@ -563,7 +565,9 @@ def run(ctx):
     found = any(v["kind"] == "failing-input" for v in ctx.violations)
     if b["ok"] and tpl_err is None:
         try:
+            t0 = time.time()
             total += part_templates(ctx)
+            ctx.log(f"templates run in Coq: {time.time() - t0:.1f}s")
         except Exception as e:  # noqa
             ctx.violation("correspondence-broken", "running the observed decoder templates in Coq failed",
                           {"error": f"{type(e).__name__}: {e}"[:600]})
